@@ -985,7 +985,8 @@ func (in *Interp) expr(p *pkgInfo, env *Env, e ast.Expr) Value {
 			if _, local := env.lookup(id.Name); !local {
 				if ip, path, isPkg := in.importedPkg(p, id); isPkg {
 					if ip == nil || ip.pkg == nil {
-						evalFail("reference to %s.%s of a package outside the repository", path, x.Sel.Name)
+						// a value of a package outside the repository (io.Discard, os.Stderr): opaque
+						return &Struct{Type: "extern:" + path + "." + x.Sel.Name, F: map[string]Value{}}
 					}
 					obj := ip.pkg.Scope().Lookup(x.Sel.Name)
 					if obj == nil {
